@@ -80,6 +80,12 @@ def check_selection(obs, model, sel, kname, ns, dim, what, mech, present_ok=True
         obs.expect(ok, what + ': one entry per request, in request order, stored values bit-for-bit, other dims intact',
                    lambda: {'var': name, 'var_dims': var.dims, 'kind': kname, 'request': ns, 'got_dims': got.dims,
                             'got': got.values, 'want': want}, mech=mech)
+        # "stored values": nothing is filled in by these selections, so the numbers keep the type they are stored with
+        # (an integer that went through float64 is only the same number below 2**53, a boolean becomes an object)
+        stored = getattr(model, 'source_dtypes', {}).get(name)       # the type the opened / built dataset holds them in
+        obs.expect(stored is None or got.dtype == stored, what + ': values keep their stored data type',
+                   lambda: {'var': name, 'got': str(got.dtype), 'want': str(stored)},
+                   mech=mech if mech == 'dataframe-index-labels' else 'selection-dtype-changed')
     for g in model.geometry_names:
         obs.cls('absent:geometry-variable')
         obs.expect(g not in sel.variables, what + ': geometry variable must be absent', lambda: {'var': g}, mech='geometry-present')
@@ -91,6 +97,7 @@ def one_dataset(obs, rng, conv, spec, workdir=None):
     obs.cls('source:' + source)
     spec['source'] = source
     model.source = source
+    model.source_dtypes = {str(name): ds[name].dtype for name in ds.variables}
     with quiet_warnings():
         ems = obs.call('dataset.ems', lambda: ds.ems)
         if isinstance(ems, Failed):
